@@ -52,6 +52,12 @@ pub fn date_pictures() -> Vec<String> {
                 }
             }
         }
+        // year + day-of-year carries the whole date; a month or a day-of-month is then a consistent extra
+        for extra in ["DD", "MM", "MON", "month"] {
+            for p in permutations(&["YYYY", "DDD", extra]) {
+                out.push(join_fields(&p, sep));
+            }
+        }
         for p in permutations(&["YYYY", "DDD"]) {
             for ex in ["", "DAY", "dy", "D"] {
                 let mut f: Vec<&str> = p.clone();
